@@ -1,2 +1,136 @@
-pub fn main(_args: &[String]) {}
+//! K-trace: run a scheduled case with the worker gated at its system calls, record the
+//! global event order, inject faults, take directory snapshots.
+//!
+//! Usage: rlharness trace <cases-file> <out-file>
+//! Case: `TRACE <cfg> | item ; item ; ...` with items: any caller op of the SEQ protocol
+//! (V A T P C U S F R D G Z E), `w N` (up to N worker events), `wi` (worker until idle),
+//! `fault <write|sync|unlink> <n>`, `snap`, `drop`, `open <cfg>`.
+
+use std::io::Write;
+use std::panic::{catch_unwind, AssertUnwindSafe};
+
+use crate::proto::*;
+use crate::shim;
+use crate::{exec_op, open_store, OpenRes, Store};
+
+fn idle_ms() -> u64 {
+    std::env::var("VERIF_IDLE_MS").ok().and_then(|s| s.parse().ok()).unwrap_or(25)
+}
+
+pub fn main(args: &[String]) {
+    let cases = std::fs::read_to_string(&args[0]).expect("read cases");
+    let mut out = std::io::BufWriter::new(std::fs::File::create(&args[1]).expect("create out"));
+    let base = std::env::var("VERIF_WORK").unwrap_or_else(|_| {
+        if std::path::Path::new("/dev/shm").is_dir() { "/dev/shm".to_string() } else { std::env::temp_dir().to_string_lossy().to_string() }
+    });
+    let root = format!("{}/rlt-{}", base, std::process::id());
+    for (i, line) in cases.lines().enumerate() {
+        let line = line.trim();
+        if line.is_empty() {
+            continue;
+        }
+        let dir = format!("{}/t{}", root, i);
+        let _ = std::fs::remove_dir_all(&dir);
+        std::fs::create_dir_all(&dir).unwrap();
+        let r = catch_unwind(AssertUnwindSafe(|| run_trace(line, &dir))).unwrap_or_else(|_| {
+            let _ = shim::stop();
+            "harness-panic".to_string()
+        });
+        writeln!(out, "{}", r).unwrap();
+        out.flush().unwrap();
+        let _ = std::fs::remove_dir_all(&dir);
+    }
+    let _ = std::fs::remove_dir_all(&root);
+    std::process::exit(0);
+}
+
+fn run_trace(line: &str, dir: &str) -> String {
+    let rest = line.strip_prefix("TRACE").unwrap_or(line);
+    let parts: Vec<&str> = rest.split('|').collect();
+    let cfg: Vec<&str> = parts[0].split_whitespace().collect();
+    let items: Vec<String> = parts[1].split(';').map(|s| s.trim().to_string()).filter(|s| !s.is_empty()).collect();
+    let idle = idle_ms();
+    shim::start(dir);
+    shim::logline(format!("c open {}", cfg.join(" ")));
+    let mut st: Option<Store> = match open_store(&cfg, dir) {
+        OpenRes::Ok(s) => {
+            shim::logline("c opened".to_string());
+            Some(s)
+        }
+        OpenRes::Err(k) => {
+            shim::logline(format!("c openerr {}", kind_str(k)));
+            None
+        }
+        OpenRes::Panic => {
+            shim::logline("c panic".to_string());
+            None
+        }
+    };
+    for it in &items {
+        let t: Vec<&str> = it.split_whitespace().collect();
+        match t[0] {
+            "w" => {
+                let n: u64 = t.get(1).map(|s| pu(s)).unwrap_or(1);
+                for _ in 0..n {
+                    if !shim::worker_step(idle) {
+                        break;
+                    }
+                }
+            }
+            "wi" => {
+                let mut guard = 0;
+                while shim::worker_step(idle) {
+                    guard += 1;
+                    if guard > 10000 {
+                        break;
+                    }
+                }
+                shim::logline("c idle".to_string());
+            }
+            "fault" => shim::add_fault(t[1], pu(t[2])),
+            "snap" => {
+                shim::settle(idle);
+                shim::logline(format!("c snap {}", disk_str(dir)));
+            }
+            "drop" => {
+                if let Some(s) = st.take() {
+                    drop(s);
+                    shim::logline("c drop".to_string());
+                }
+            }
+            "open" => {
+                shim::logline(format!("c open {}", t[1..].join(" ")));
+                match open_store(&t[1..], dir) {
+                    OpenRes::Ok(s) => {
+                        shim::logline("c opened".to_string());
+                        st = Some(s);
+                    }
+                    OpenRes::Err(k) => shim::logline(format!("c openerr {}", kind_str(k))),
+                    OpenRes::Panic => shim::logline("c panic".to_string()),
+                }
+            }
+            _ => {
+                if let Some(s) = st.as_mut() {
+                    shim::logline(format!("c call {}", it));
+                    let (res, stop) = exec_op(s, dir, &t);
+                    shim::logline(format!("c ret {}", res));
+                    if stop {
+                        std::mem::forget(st.take());
+                    }
+                } else {
+                    shim::logline(format!("c skipped {}", it));
+                }
+            }
+        }
+    }
+    // let everything run out
+    shim::set_gate(false);
+    std::thread::sleep(std::time::Duration::from_millis(5));
+    let snap = disk_str(dir);
+    drop(st);
+    let mut log = shim::stop();
+    log.push(format!("c end {}", snap));
+    log.join(" ; ")
+}
+
 pub fn lock_child(_args: &[String]) {}
